@@ -25,6 +25,21 @@ def grid(units, full):
                             if kill and (full or not damage):   # ... and with a second life of the agent before the recovery
                                 i += 1
                                 out.append(dict(out[-1], id="g%d" % i, after=[1, 2]))
+    # chunks are not written in id order (at a stop the newer chunks of the input queue are saved before the older ones of the
+    # output window; a consumer hands old chunks back while new ones are spilled): the interrupted or failed write is then not
+    # the newest file of the directory.  Every order of three ids x victim position x where the write stops
+    for unit in units[:2]:
+        for ids in itertools.permutations((1, 2, 3)):
+            if ids == (1, 2, 3):
+                continue
+            for pos in (1, 2, 3):
+                for limit, kill in ((-1, "wfa.afterOpen"), (1, "wfa.afterWrite"), (-1, "wfa.afterClose"), (1, ""), (-1, "wfa.afterRename")):
+                    for after in ((), (1,)):
+                        i += 1
+                        s = {"id": "g%d" % i, "unit": unit, "lens": [2, 2, 2], "ids": list(ids), "victim": pos, "limitAt": limit, "killPoint": kill, "damage": 0, "damageKind": ""}
+                        if after:
+                            s.update(after=[1, 2], afterIds=[5, 4])
+                        out.append(s)
     return out
 
 
@@ -35,6 +50,7 @@ def field(state, name):
 
 def script_from_behaviour(beh, sid, unit):
     lens, victim, limit, kill, damage, dkind, after, lives = [], 0, -1, "", 0, "", [], 1
+    ids, after_ids = [], []
     prev = None
     for act, par, st in beh:
         pre = prev if prev is not None else st
@@ -44,7 +60,9 @@ def script_from_behaviour(beh, sid, unit):
         if act == "Respawn":
             lives += 1
         elif act == "Persist":
-            (lens if lives == 1 else after).append(int(par))
+            pi, pl = [int(x) for x in par.split(",")]
+            (lens if lives == 1 else after).append(pl)
+            (ids if lives == 1 else after_ids).append(pi)
         elif act == "WriteFails" and not victim:
             victim, limit = cur, written
         elif act == "Crash" and wpc != "idle" and (not victim or victim == cur):
@@ -65,8 +83,12 @@ def script_from_behaviour(beh, sid, unit):
             damage, dkind = int(par), "zero"
         prev = st
     if not lens:
-        lens = [1]
-    return {"id": sid, "unit": unit, "lens": lens, "victim": victim, "limitAt": limit, "killPoint": kill, "damage": damage, "damageKind": dkind, "after": after}
+        lens, ids = [1], [min(set(range(1, 8)) - set(after_ids))]    # the first life persists at least one chunk (the driver needs one)
+    # the driver's victim is a position in accept order of the first life, the model's is an id
+    vpos = ids.index(victim) + 1 if victim in ids else 0
+    if vpos == 0:
+        limit, kill = -1, ""
+    return {"id": sid, "unit": unit, "lens": lens, "ids": ids, "victim": vpos, "limitAt": limit, "killPoint": kill, "damage": damage, "damageKind": dkind, "after": after, "afterIds": after_ids}
 
 
 def run_scripts(chk, scripts):
@@ -140,9 +162,9 @@ def run(chk):
                    {"script.json": script, "trace.ndjson": open(rej2[0][1]).read(), "tlc.txt": r2["out"][-5000:]})
     cov.update({"traces_validated_against_impl": n_tr, "trace_events": n_ev, "trace_validation_states": states,
                 "tlc_behaviours_replayed": len(behs), "evaluations": n_tr,
-                "distinct_nontrivial": len({json.dumps({k: s[k] for k in ("unit", "lens", "victim", "limitAt", "killPoint", "damage", "damageKind")} | {"after": s.get("after")}, sort_keys=True)
+                "distinct_nontrivial": len({json.dumps({k: s[k] for k in ("unit", "lens", "victim", "limitAt", "killPoint", "damage", "damageKind")} | {"after": s.get("after"), "ids": s.get("ids"), "afterIds": s.get("afterIds")}, sort_keys=True)
                                             for s in scripts if s["victim"] and (s["limitAt"] >= 0 or s["killPoint"] or s["damage"])}),
-                "rule": "scenarios = fault projection of TLC -simulate behaviours of ChunkFile plus the complete grid victim length {1,2,3} x queue position {1,2,3} x write stopped at byte k in 0..n-1 or not x kill point {none, after open, after write, after close, after rename} x an unreadable neighbour file, at byte units %s; non-trivial = a write limit, a kill point or a damaged file" % ([1, 512, 4096, 33000] if thorough else [1, 4096]),
+                "rule": "scenarios = fault projection of TLC -simulate behaviours of ChunkFile plus the complete grid victim length {1,2,3} x queue position {1,2,3} x write stopped at byte k in 0..n-1 or not x kill point {none, after open, after write, after close, after rename} x an unreadable neighbour file, plus every non-monotonic order of three chunk ids x victim position x stop point (the interrupted write is not the newest file), with and without a second life, at byte units %s; non-trivial = a write limit, a kill point or a damaged file" % ([1, 512, 4096, 33000] if thorough else [1, 4096]),
                 "exhaustive": True, "event_kinds_seen": sorted(kinds), "samples": [scripts[0], scripts[-1]]})
     chk.level = "fault_enumeration"
     chk.assumptions += ["crash = process death (os.Exit at a kill point inside util.WriteFileAt); the page cache survives, no power loss",
